@@ -230,35 +230,37 @@ fn shim_link() {
     assert!(ms_of(v, false) == dur_ms_of(f));
 }
 
-// ------------------------------------------------------------------ (A3) exact lattices: product exactly representable, ties away from zero
-/// v = q / 2^30 < 64: f = v (+1 below 60) has at most 37 significant bits, f * 86_400_000 = qq * 84375 / 2^20 exactly
-fn exact_lo(lo: u64, hi: u64) {
-    let q: u64 = kani::any();
-    kani::assume(lo <= q && q <= hi);
-    kani::cover!(q == lo);
-    kani::cover!(q == hi);
-    let v = q as f64 * (1.0 / 1073741824.0);
-    let ms = ms_of(v, false);
-    if (60u64 << 30) <= q && q < (61u64 << 30) {
-        assert!(60 * DAY_MS <= ms && ms <= 61 * DAY_MS); // fictitious 1900-02-29
-        return;
-    }
-    let qq = if q >= (60u64 << 30) { q } else { q + (1u64 << 30) };
-    assert!(ms as u64 == (qq * 84375 + (1 << 19)) >> 20 && ms >= 0);
-}
-/// v in [2^e, 2^(e+1)), 6 <= e_lo <= e <= e_hi <= 21 (exponent symbolic), low 17 fraction bits zero: v = k36 * 2^(e-35), product = k36 * 84375 / 2^(25-e) exactly
-fn exact_hi(e_lo: i32, e_hi: i32) {
+// ------------------------------------------------------------------ (A3) exact lattice: ties away from zero
+/// every double v in [2^e_lo, 2^(e_hi+1)) (exponent symbolic), v < LAST_SERIAL, such that the day offset v + c (c as in (A2)) is a
+/// double with at most 36 significant bits: then (v + c) * 86_400_000 = mantissa * 84375 * 2^10 / 2^sf is exact in binary64 and
+///     ms == floor((v + c) * 86_400_000 + 1/2)      (round to nearest millisecond, ties away from zero)
+/// The lattice contains all whole days, all multiples of 2^-14 day (5.3 s) up to 9999-12-31, of 2^-20 day (82 ms) up to 2079,
+/// of 2^-30 day (0.08 ms) below serial 63 (1900 system), and products with fractional part exactly 1/2 (cover).
+/// Both lattice conditions are checked in integer arithmetic on the IEEE-754 fields of the harness-side sum f.
+fn exact_sym(e_lo: i32, e_hi: i32, is_1904: bool) {
     let e: i32 = kani::any();
     kani::assume(e_lo <= e && e <= e_hi);
-    let k: u64 = kani::any();
-    kani::assume(k < (1u64 << 35));
-    let v = mk(e, k << 17, false);
+    let m: u64 = kani::any();
+    kani::assume(m < (1u64 << 52));
+    let v = mk(e, m, false);
     kani::assume(v < LAST_SERIAL);
-    kani::cover!(k == 1);
-    let ms = ms_of(v, false);
-    let k36 = (1u64 << 35) + k;
-    let sh = (25 - e) as u32;
-    assert!(ms as u64 == (k36 * 84375 + (1u64 << (sh - 1))) >> sh && ms >= 0);
+    kani::assume(is_1904 || !(60.0 <= v && v < 61.0)); // fictitious 1900-02-29: see (A2) / monotonicity
+    let c: u128 = if is_1904 { 1462 } else if v >= 60.0 { 0 } else { 1 };
+    let f = if is_1904 { v + 1462.0 } else if v >= 60.0 { v } else { v + 1.0 };
+    let fb = f.to_bits();
+    let ef = ((fb >> 52) & 0x7ff) as i32 - 1023;
+    let mf = (1u128 << 52) + (fb & ((1u64 << 52) - 1)) as u128;
+    kani::assume((fb >> 63) == 0 && ef >= e && ef <= 21 && ef >= 0);
+    let sv = (52 - e) as u32;
+    let sf = (52 - ef) as u32;
+    let mant = (1u128 << 52) + m as u128;
+    kani::assume(mf << (sv - sf) == mant + (c << sv)); // f is exactly v + c
+    kani::assume(mf & ((1u128 << 17) - 1) == 0); // at most 36 significant bits
+    kani::cover!(e == e_lo);
+    kani::cover!(e == e_hi);
+    kani::cover!((mf * 84375 * 1024) & ((1u128 << sf) - 1) == (1u128 << (sf - 1))); // a tie
+    let ms = ms_of(v, is_1904);
+    assert!(ms >= 0 && ms as u128 == (mf * 84375 * 1024 + (1u128 << (sf - 1))) >> sf);
 }
 
 // ------------------------------------------------------------------ (A4) totality and None paths (real chrono, nothing stubbed)
@@ -849,88 +851,18 @@ fn datetime_offset_is_duration_of_shimmed_serial() {
 }
 #[kani::proof]
 #[kani::stub(chrono::TimeDelta::try_milliseconds, rec_try_milliseconds)]
-fn exact_hi_all() {
-    exact_hi(6, 21);
+fn exact1900_em28_e5() {
+    exact_sym(-28, 5, false);
 }
 #[kani::proof]
 #[kani::stub(chrono::TimeDelta::try_milliseconds, rec_try_milliseconds)]
-fn exact_lo_q20() {
-    exact_lo(1 << 20, (1 << 21) - 1);
+fn exact1900_e6_e21() {
+    exact_sym(6, 21, false);
 }
 #[kani::proof]
 #[kani::stub(chrono::TimeDelta::try_milliseconds, rec_try_milliseconds)]
-fn exact_lo_q21() {
-    exact_lo(1 << 21, (1 << 22) - 1);
-}
-#[kani::proof]
-#[kani::stub(chrono::TimeDelta::try_milliseconds, rec_try_milliseconds)]
-fn exact_lo_q22() {
-    exact_lo(1 << 22, (1 << 23) - 1);
-}
-#[kani::proof]
-#[kani::stub(chrono::TimeDelta::try_milliseconds, rec_try_milliseconds)]
-fn exact_lo_q23() {
-    exact_lo(1 << 23, (1 << 24) - 1);
-}
-#[kani::proof]
-#[kani::stub(chrono::TimeDelta::try_milliseconds, rec_try_milliseconds)]
-fn exact_lo_q24() {
-    exact_lo(1 << 24, (1 << 25) - 1);
-}
-#[kani::proof]
-#[kani::stub(chrono::TimeDelta::try_milliseconds, rec_try_milliseconds)]
-fn exact_lo_q25() {
-    exact_lo(1 << 25, (1 << 26) - 1);
-}
-#[kani::proof]
-#[kani::stub(chrono::TimeDelta::try_milliseconds, rec_try_milliseconds)]
-fn exact_lo_q26() {
-    exact_lo(1 << 26, (1 << 27) - 1);
-}
-#[kani::proof]
-#[kani::stub(chrono::TimeDelta::try_milliseconds, rec_try_milliseconds)]
-fn exact_lo_q27() {
-    exact_lo(1 << 27, (1 << 28) - 1);
-}
-#[kani::proof]
-#[kani::stub(chrono::TimeDelta::try_milliseconds, rec_try_milliseconds)]
-fn exact_lo_q28() {
-    exact_lo(1 << 28, (1 << 29) - 1);
-}
-#[kani::proof]
-#[kani::stub(chrono::TimeDelta::try_milliseconds, rec_try_milliseconds)]
-fn exact_lo_q29() {
-    exact_lo(1 << 29, (1 << 30) - 1);
-}
-#[kani::proof]
-#[kani::stub(chrono::TimeDelta::try_milliseconds, rec_try_milliseconds)]
-fn exact_lo_q30() {
-    exact_lo(1 << 30, (1 << 31) - 1);
-}
-#[kani::proof]
-#[kani::stub(chrono::TimeDelta::try_milliseconds, rec_try_milliseconds)]
-fn exact_lo_q31() {
-    exact_lo(1 << 31, (1 << 32) - 1);
-}
-#[kani::proof]
-#[kani::stub(chrono::TimeDelta::try_milliseconds, rec_try_milliseconds)]
-fn exact_lo_q32() {
-    exact_lo(1 << 32, (1 << 33) - 1);
-}
-#[kani::proof]
-#[kani::stub(chrono::TimeDelta::try_milliseconds, rec_try_milliseconds)]
-fn exact_lo_q33() {
-    exact_lo(1 << 33, (1 << 34) - 1);
-}
-#[kani::proof]
-#[kani::stub(chrono::TimeDelta::try_milliseconds, rec_try_milliseconds)]
-fn exact_lo_q34() {
-    exact_lo(1 << 34, (1 << 35) - 1);
-}
-#[kani::proof]
-#[kani::stub(chrono::TimeDelta::try_milliseconds, rec_try_milliseconds)]
-fn exact_lo_q35() {
-    exact_lo(1 << 35, (1 << 36) - 1);
+fn exact1904_em25_e21() {
+    exact_sym(-25, 21, true);
 }
 #[kani::proof]
 fn as_datetime_total_any_f64() {
